@@ -214,8 +214,8 @@ func decideTotality(w *World, r *Report, funcs []*FuncInfo, contained func(fi *F
 				r.OK("alloc", fi.Key, inst, pos, "constant size", false)
 				continue
 			}
-			if ub, ok := a.Size.UpperBound(); ok && a.Size.NonNeg() && ub <= 4*65535+65535 {
-				r.OK("alloc", fi.Key, inst, pos, fmt.Sprintf("size %v <= %d by the declared ranges of the wire fields", a.Size, ub), true)
+			if ub, ok := a.Size.UpperBound(); ok && a.Size.NonNeg() && ub <= 4096 {
+				r.OK("alloc", fi.Key, inst, pos, fmt.Sprintf("size %v <= %d by the declared ranges of the wire fields (a small constant bound)", a.Size, ub), true)
 				continue
 			}
 			if w.ProveX(a.Size, LenOf("P"), a.Facts) && w.ProveX(Const(0), a.Size, a.Facts) {
@@ -226,7 +226,7 @@ func decideTotality(w *World, r *Report, funcs []*FuncInfo, contained func(fi *F
 				r.OK("alloc", fi.Key, inst, pos, fmt.Sprintf("size %v does not depend on the input", a.Size), false)
 				continue
 			}
-			r.Fail(VViolation, "alloc", fi.Key, inst, pos, fmt.Sprintf("allocation of %v bytes is steered by the input without a bound from a 16-bit field or the input length", a.Size))
+			r.Fail(VViolation, "alloc", fi.Key, inst, pos, fmt.Sprintf("allocation of %v elements is steered by a wire field and not bounded by the input length (or a small constant): a few bytes of input can demand a large allocation", a.Size))
 		}
 	}
 	r.Stats["decoder_functions"] = len(funcs)
